@@ -79,6 +79,17 @@ class LM(Hooks, LightNodeMixin):
         return "LM(%s)" % (self.name,)
 
 
+class LM2(LM):
+    """Slotted subclass adding slots of its own."""
+
+    __slots__ = ("extra", "more")
+
+    def __init__(self, name, extra=None, more=None):
+        LM.__init__(self, name)
+        self.extra = extra
+        self.more = more
+
+
 class HNode(Hooks, Node):
     pass
 
@@ -156,6 +167,20 @@ class FalsyNM(Hooks, NodeMixin):
         return "FalsyNM(%s)" % (self.name,)
 
 
+class FalsyLM(Hooks, LightNodeMixin):
+    __slots__ = ("name", "key")
+
+    def __init__(self, name, key=0):
+        self.name = name
+        self.key = key
+
+    def __len__(self):
+        return len(self.children)
+
+    def __repr__(self):
+        return "FalsyLM(%s)" % (self.name,)
+
+
 class FalsyAny(Hooks, AnyNode):
     def __len__(self):
         return len(self.children)
@@ -169,12 +194,12 @@ class FalsyNode(Hooks, Node):
         return False
 
 
-FAMILIES = ("NM", "LM", "Node", "AnyNode", "MIX", "VALNM", "VALLM", "FALSY", "FALSYANY", "FALSYNODE")
+FAMILIES = ("NM", "LM", "Node", "AnyNode", "MIX", "VALNM", "VALLM", "FALSY", "FALSYLM", "FALSYANY", "FALSYNODE")
 
 
 def base_family(family):
     """'LM' for LightNodeMixin-based families (no claims for non-node arguments), else 'NM'."""
-    return "LM" if family in ("LM", "VALLM") else "NM"
+    return "LM" if family in ("LM", "VALLM", "FALSYLM") else "NM"
 
 CUSTOM_FAMILIES = {}  # name -> factory(k) -> list of fresh detached nodes
 
@@ -189,6 +214,8 @@ def make_nodes(family, k):
         return [ValNM("n%d" % i, i % 2) for i in range(k)]
     if family == "VALLM":
         return [ValLM("n%d" % i, i % 2) for i in range(k)]
+    if family == "FALSYLM":
+        return [FalsyLM("n%d" % i, i % 2) for i in range(k)]
     if family == "FALSYANY":
         return [FalsyAny(id="n%d" % i, name="n%d" % i) for i in range(k)]
     if family == "FALSYNODE":
